@@ -5,6 +5,7 @@ package main
 
 import (
 	"fmt"
+	"go/types"
 	"math/big"
 	"strings"
 )
@@ -293,4 +294,34 @@ func sanitize(s string) string {
 		}
 	}
 	return b.String()
+}
+
+var arrEqCtr int
+
+// arrEq: Go equality of two arrays of length n held as SMT arrays: elements 0..n-1 agree (whatever
+// the SMT arrays hold outside that range is not part of the Go value).
+func arrEq(a, b string, n int64) string {
+	if a == b {
+		return "true"
+	}
+	if n <= 8 {
+		var cs []string
+		for i := int64(0); i < n; i++ {
+			cs = append(cs, mkEq(mkSel(a, itoa(int(i))), mkSel(b, itoa(int(i)))))
+		}
+		return mkAnd(cs...)
+	}
+	arrEqCtr++
+	i := "i!ae" + itoa(arrEqCtr)
+	return sf("(forall ((%s Int)) (=> (and (<= 0 %s) (< %s %d)) (= (select %s %s) (select %s %s))))", i, i, i, n, a, i, b, i)
+}
+
+func arrLenOf(t types.Type) (int64, bool) {
+	if t == nil {
+		return 0, false
+	}
+	if au, ok := under(t).(*types.Array); ok {
+		return au.Len(), true
+	}
+	return 0, false
 }
